@@ -547,6 +547,24 @@ def _scalarize_small_arrays(fn: ast.FunctionDef) -> bool:
             cands[st.targets[0].id] = (st, st.value.args[0].value, st.value.func.attr, st.value.func.value.id)
     if not cands:
         return False
+    # `lo, hi = a` unpacks the cells in their order: `lo = a[0]; hi = a[1]`
+    class U(ast.NodeTransformer):
+        def visit_FunctionDef(self, node):
+            if node is fn:
+                self.generic_visit(node)
+            return node
+
+        def visit_Assign(self, node):
+            if len(node.targets) == 1 and isinstance(node.targets[0], (ast.Tuple, ast.List)) and isinstance(node.value, ast.Name) \
+                    and node.value.id in cands and len(node.targets[0].elts) == cands[node.value.id][1] \
+                    and all(isinstance(e, ast.Name) for e in node.targets[0].elts):
+                return [_fix(ast.Assign(targets=[ast.Name(id=e.id, ctx=ast.Store())],
+                                        value=ast.Subscript(value=ast.Name(id=node.value.id, ctx=ast.Load()),
+                                                            slice=ast.Constant(value=i), ctx=ast.Load())), node)
+                        for i, e in enumerate(node.targets[0].elts)]
+            return node
+    U().visit(fn)
+    ast.fix_missing_locations(fn)
     # every other occurrence is `a[<literal index in range>]`
     parents: Dict[int, ast.AST] = {}
     for n in ast.walk(fn):
@@ -2004,6 +2022,376 @@ def _sink_defs_into_branches(fn: ast.FunctionDef) -> bool:
     return changed
 
 
+def _enumerate_to_range(fn: ast.FunctionDef) -> bool:
+    """N30: `for i, x in enumerate(X)` over a sequence parameter X that the function also indexes / measures (`X[k]`,
+    `len(X)`) and that the loop does not change, with i and x only read in the body, is `for i in range(len(X))` with
+    every `x` read as `X[i]` (the element at the moment of the iteration: nothing stores into X meanwhile)."""
+    params = _fn_params(fn)
+    seq_evidence: Set[str] = set()
+    for n in ast.walk(fn):
+        if isinstance(n, ast.Subscript) and isinstance(n.value, ast.Name) and n.value.id in params:
+            seq_evidence.add(n.value.id)
+        if isinstance(n, ast.Call) and isinstance(n.func, ast.Name) and n.func.id == 'len' and len(n.args) == 1 \
+                and isinstance(n.args[0], ast.Name) and n.args[0].id in params:
+            seq_evidence.add(n.args[0].id)
+    changed = False
+
+    def visit(block):
+        nonlocal changed
+        for st in block:
+            if isinstance(st, (ast.FunctionDef, ast.ClassDef)):
+                continue
+            if isinstance(st, ast.For) and not st.orelse and isinstance(st.target, ast.Tuple) and len(st.target.elts) == 2 \
+                    and all(isinstance(e, ast.Name) for e in st.target.elts) and isinstance(st.iter, ast.Call) \
+                    and isinstance(st.iter.func, ast.Name) and st.iter.func.id == 'enumerate' and len(st.iter.args) == 1 \
+                    and not st.iter.keywords and isinstance(st.iter.args[0], ast.Name) and st.iter.args[0].id in seq_evidence:
+                i, x, X = st.target.elts[0].id, st.target.elts[1].id, st.iter.args[0].id
+                body_mut = set()
+                for b in st.body:
+                    body_mut |= mutated_names(b)
+                nested_scope = any(isinstance(n, (ast.FunctionDef, ast.Lambda, ast.ClassDef)) for b in st.body for n in ast.walk(b))
+                used_after = any(isinstance(n, ast.Name) and n.id == x and isinstance(n.ctx, ast.Load)
+                                 for n in ast.walk(fn) if not any(n is m for b in st.body for m in ast.walk(b)))
+                if not ({i, x, X} & body_mut) and not nested_scope and not used_after and len({i, x, X}) == 3 \
+                        and stores_count.get(X, 0) == 0 and stores_count.get(x, 0) == 1 and stores_count.get(i, 0) == 1:
+                    elem = ast.Subscript(value=ast.Name(id=X, ctx=ast.Load()), slice=ast.Name(id=i, ctx=ast.Load()), ctx=ast.Load())
+                    sub = _Subst(x, elem)
+                    st.body = [sub.visit(b) for b in st.body]
+                    st.target = ast.Name(id=i, ctx=ast.Store())
+                    st.iter = ast.Call(func=ast.Name(id='range', ctx=ast.Load()),
+                                       args=[ast.Call(func=ast.Name(id='len', ctx=ast.Load()), args=[ast.Name(id=X, ctx=ast.Load())],
+                                                      keywords=[])], keywords=[])
+                    ast.fix_missing_locations(st)
+                    changed = True
+            for b in _blocks_of(st):
+                visit(b)
+    stores_count: Dict[str, int] = {}
+    for n in ast.walk(fn):
+        if isinstance(n, ast.Name) and isinstance(n.ctx, (ast.Store, ast.Del)):
+            stores_count[n.id] = stores_count.get(n.id, 0) + 1
+    visit(fn.body)
+    if changed:
+        _invalidate()
+    return changed
+
+
+def _duplicate_tail_into_arms(fn: ast.FunctionDef) -> bool:
+    """N31: an if / elif / else chain whose arms all define the same plain temporaries, followed - up to the end of its
+    block - by simple statements that consume exactly those temporaries (the stores / updates that every case has in
+    common, written once behind the chain): the tail is the end of every arm.  The temporaries are then substituted by
+    the ordinary passes, which gives the form in which each case stores its own values."""
+    changed = False
+
+    def arms_of(node: ast.If) -> Optional[List[List[ast.stmt]]]:
+        arms = [node.body]
+        cur = node
+        while len(cur.orelse) == 1 and isinstance(cur.orelse[0], ast.If):
+            cur = cur.orelse[0]
+            arms.append(cur.body)
+        if not cur.orelse:
+            return None
+        arms.append(cur.orelse)
+        return arms
+
+    def plain_defs(arm: List[ast.stmt]) -> Set[str]:
+        return {st.targets[0].id for st in arm if isinstance(st, ast.Assign) and len(st.targets) == 1
+                and isinstance(st.targets[0], ast.Name)}
+
+    def visit(block, in_loop):
+        nonlocal changed
+        for st in block:
+            if isinstance(st, (ast.FunctionDef, ast.ClassDef)):
+                continue
+            for b in _blocks_of(st):
+                visit(b, in_loop or isinstance(st, (ast.For, ast.While)))
+        for k, st in enumerate(block):
+            if not (isinstance(st, ast.If) and st.orelse):
+                continue
+            tail = block[k + 1:]
+            if not tail or len(tail) > 8 or not in_loop:
+                continue
+            if not all(isinstance(t, (ast.Assign, ast.AugAssign)) and not isinstance(getattr(t, 'value', None), (ast.Yield, ast.Await))
+                       for t in tail):
+                continue
+            arms = arms_of(st)
+            if arms is None or len(arms) < 2 or any(terminates(a) for a in arms):
+                continue
+            common = set.intersection(*[plain_defs(a) for a in arms])
+            tail_reads: Set[str] = set()
+            for t in tail:
+                tail_reads |= _names_loaded(t)
+            temps = common & tail_reads
+            if not temps:
+                continue
+            # the temporaries live only in the arms and the tail
+            inside = set()
+            for a in arms:
+                for s_ in a:
+                    inside |= {id(n) for n in ast.walk(s_)}
+            for t in tail:
+                inside |= {id(n) for n in ast.walk(t)}
+            if any(isinstance(n, ast.Name) and n.id in temps and id(n) not in inside for n in ast.walk(fn)):
+                continue
+            for a in arms:
+                a.extend(copy.deepcopy(tail))
+                for v in sorted(temps):
+                    forward(a, v)
+            del block[k + 1:]
+            changed = True
+            break
+
+    def forward(arm: List[ast.stmt], v: str):
+        # substitute the single plain definition `v = E` of this arm into the simple statements behind it; an increment
+        # `w += c` of a name that E reads is carried along as E[w := w - c]
+        defs = [i for i, st in enumerate(arm) if _stores(st, v)]
+        if len(defs) != 1 or not _plain_def(arm[defs[0]], v):
+            return
+        d = defs[0]
+        E = copy.deepcopy(arm[d].value)
+        if not _is_pure_expr(E) or v in _names_loaded(E):
+            return
+        new_stmts = []
+        for st in arm[d + 1:]:
+            if not isinstance(st, (ast.Assign, ast.AugAssign)):
+                if v in _names_loaded(st):
+                    return
+                if mutated_names(st) & _names_loaded(E):
+                    return
+                new_stmts.append(st)
+                continue
+            st2 = copy.deepcopy(st)
+            if v in _names_loaded(st2):
+                st2 = _Subst(v, E).visit(st2)
+            new_stmts.append(st2)
+            up = _self_update(st)
+            killed = mutated_names(st) & _names_loaded(E)
+            if killed:
+                if up is not None and killed == {up[0]} and isinstance(up[1], (ast.Add, ast.Sub)) and _is_num_literal(up[2]):
+                    inv = ast.BinOp(left=ast.Name(id=up[0], ctx=ast.Load()), op=ast.Sub() if isinstance(up[1], ast.Add) else ast.Add(),
+                                    right=copy.deepcopy(up[2]))
+                    E = _Subst(up[0], inv).visit(E)
+                else:
+                    # later reads of v cannot be expressed any more
+                    rest = arm[d + 1 + len(new_stmts):]
+                    if any(v in _names_loaded(r) for r in rest):
+                        return
+        arm[d:] = new_stmts
+    visit(fn.body, False)
+    if changed:
+        ast.fix_missing_locations(fn)
+        _invalidate()
+    return changed
+
+
+def _forward_across_increments(fn: ast.FunctionDef) -> bool:
+    """N32: a plain temporary `v = E` (defined once in the function, E side-effect free) whose uses lie behind an
+    increment `w += c` of a name that E reads - so that the ordinary substitution is blocked - is still substituted: behind
+    the increment the value of E is E[w := w - c].  All uses must lie behind the definition in its own block (nested
+    arms included); where the arms of an `if` leave different expressions for the value, or anything else changes what E
+    reads, a later use stops the rewrite."""
+    changed = False
+    stores: Dict[str, int] = {}
+    loads: Dict[str, int] = {}
+    for n in ast.walk(fn):
+        if isinstance(n, ast.Name):
+            if isinstance(n.ctx, ast.Load):
+                loads[n.id] = loads.get(n.id, 0) + 1
+            else:
+                stores[n.id] = stores.get(n.id, 0) + 1
+    params = _fn_params(fn)
+
+    class Fail(Exception):
+        pass
+
+    def run(stmts: List[ast.stmt], v: str, E: Optional[ast.expr], counter: List[int]) -> Optional[ast.expr]:
+        for st in stmts:
+            if isinstance(st, (ast.FunctionDef, ast.ClassDef, ast.Lambda)):
+                raise Fail()
+            if isinstance(st, (ast.Assign, ast.AugAssign, ast.Expr, ast.Return)):
+                if v in _names_loaded(st):
+                    if E is None:
+                        raise Fail()
+                    sub = _Subst(v, E)
+                    sub.visit(st)
+                    counter[0] += sub.count
+                if E is not None:
+                    killed = mutated_names(st) & _names_loaded(E)
+                    if killed:
+                        inc = None
+                        if isinstance(st, ast.AugAssign) and isinstance(st.target, ast.Name) and isinstance(st.op, (ast.Add, ast.Sub)) \
+                                and _is_num_literal(st.value):
+                            inc = (st.target.id, st.op, st.value)
+                        else:
+                            up = _self_update(st)
+                            if up is not None and isinstance(up[1], (ast.Add, ast.Sub)) and _is_num_literal(up[2]):
+                                inc = up
+                        if inc is not None and killed == {inc[0]}:
+                            inv = ast.BinOp(left=ast.Name(id=inc[0], ctx=ast.Load()),
+                                            op=ast.Sub() if isinstance(inc[1], ast.Add) else ast.Add(), right=copy.deepcopy(inc[2]))
+                            E = _Subst(inc[0], inv).visit(copy.deepcopy(E))
+                        else:
+                            E = None
+            elif isinstance(st, ast.If):
+                if v in _names_loaded(st.test):
+                    if E is None:
+                        raise Fail()
+                    sub = _Subst(v, E)
+                    st.test = sub.visit(st.test)
+                    counter[0] += sub.count
+                e1 = run(st.body, v, copy.deepcopy(E) if E is not None else None, counter)
+                e2 = run(st.orelse, v, copy.deepcopy(E) if E is not None else None, counter)
+                t1, t2 = terminates(st.body), terminates(st.orelse) if st.orelse else False
+                if t1 and not t2:
+                    E = e2
+                elif t2 and not t1:
+                    E = e1
+                elif e1 is not None and e2 is not None and ast.dump(e1) == ast.dump(e2):
+                    E = e1
+                else:
+                    E = None
+            else:
+                if any(isinstance(n, ast.Name) and n.id == v for n in ast.walk(st)):
+                    raise Fail()
+                if E is not None and mutated_names(st) & _names_loaded(E):
+                    E = None
+        return E
+
+    def visit(block):
+        nonlocal changed
+        for st in block:
+            if isinstance(st, (ast.FunctionDef, ast.ClassDef)):
+                continue
+            for b in _blocks_of(st):
+                visit(b)
+        k = 0
+        while k < len(block):
+            st = block[k]
+            if isinstance(st, ast.Assign) and len(st.targets) == 1 and isinstance(st.targets[0], ast.Name):
+                v = st.targets[0].id
+                if stores.get(v) == 1 and v not in params and loads.get(v, 0) >= 1 and _is_pure_expr(st.value) \
+                        and v not in _names_loaded(st.value) and _size(st.value) <= 12 and not isinstance(st.value, (ast.Name, ast.Constant)):
+                    # only when an increment of an operand stands between the definition and a use
+                    reads = _names_loaded(st.value)
+                    incs = any(isinstance(n, ast.AugAssign) and isinstance(n.target, ast.Name) and n.target.id in reads
+                               for t in block[k + 1:] for n in ast.walk(t))
+                    if incs:
+                        trial = copy.deepcopy(block[k + 1:])
+                        counter = [0]
+                        try:
+                            run(trial, v, copy.deepcopy(st.value), counter)
+                        except Fail:
+                            counter = None
+                        if counter is not None and counter[0] == loads.get(v, 0):
+                            block[k:] = trial
+                            changed = True
+                            loads[v] = 0
+                            continue
+            k += 1
+    visit(fn.body)
+    if changed:
+        ast.fix_missing_locations(fn)
+        _invalidate()
+    return changed
+
+
+def _conditional_override_to_select(fn: ast.FunctionDef) -> bool:
+    """N33: `x = A` directly followed by `if c: x = F` (no else; c does not read x; A, F side-effect free, A small) is the
+    selection `if c: x = F[x := A] else: x = A` - the form that a helper with an early return, a conditional expression
+    and an if / else all normalise to."""
+    changed = False
+
+    def visit(block):
+        nonlocal changed
+        for st in block:
+            if isinstance(st, (ast.FunctionDef, ast.ClassDef)):
+                continue
+            for b in _blocks_of(st):
+                visit(b)
+        k = 0
+        while k + 1 < len(block):
+            a, b = block[k], block[k + 1]
+            if isinstance(a, ast.Assign) and len(a.targets) == 1 and isinstance(a.targets[0], ast.Name) and isinstance(b, ast.If) \
+                    and not b.orelse and len(b.body) == 1 and _plain_def(b.body[0], a.targets[0].id):
+                x = a.targets[0].id
+                A, F = a.value, b.body[0].value
+                if x not in _names_loaded(b.test) and x not in _names_loaded(A) and _is_pure_expr(A) and _is_pure_expr(F) \
+                        and _size(A) <= 8 and _is_effect_free_expr(b.test) and x in _names_loaded(F):
+                    newF = _Subst(x, A).visit(copy.deepcopy(F))
+                    sel = ast.If(test=b.test, body=[_fix(ast.Assign(targets=[ast.Name(id=x, ctx=ast.Store())], value=newF), b.body[0])],
+                                 orelse=[_fix(ast.Assign(targets=[ast.Name(id=x, ctx=ast.Store())], value=copy.deepcopy(A)), a)])
+                    block[k:k + 2] = [_fix(sel, b)]
+                    changed = True
+                    continue
+            k += 1
+    visit(fn.body)
+    if changed:
+        ast.fix_missing_locations(fn)
+        _invalidate()
+    return changed
+
+
+def _hoist_common_return(fn: ast.FunctionDef) -> bool:
+    """N34: an if / elif / else chain at the end of a block all of whose arms end in the same `return E` is the chain
+    without those returns followed by one `return E` (a guard clause that repeats the final return of the function)."""
+    changed = False
+
+    def arms_of(node: ast.If):
+        arms = [node.body]
+        cur = node
+        while len(cur.orelse) == 1 and isinstance(cur.orelse[0], ast.If):
+            cur = cur.orelse[0]
+            arms.append(cur.body)
+        if not cur.orelse:
+            return None
+        arms.append(cur.orelse)
+        return arms
+
+    def visit(block):
+        nonlocal changed
+        for st in block:
+            if isinstance(st, (ast.FunctionDef, ast.ClassDef)):
+                continue
+            for b in _blocks_of(st):
+                visit(b)
+        if block and isinstance(block[-1], ast.If) and block[-1].orelse:
+            arms = arms_of(block[-1])
+            if arms and all(len(a) >= 2 and isinstance(a[-1], ast.Return) and a[-1].value is not None for a in arms):
+                d = ast.dump(arms[0][-1].value)
+                if all(ast.dump(a[-1].value) == d for a in arms):
+                    ret = arms[0][-1]
+                    for a in arms:
+                        del a[-1]
+                    block.append(ret)
+                    changed = True
+    visit(fn.body)
+    if changed:
+        ast.fix_missing_locations(fn)
+        _invalidate()
+    return changed
+
+
+def _drop_self_assign(fn: ast.FunctionDef) -> bool:
+    """`x = x` (left behind where an inlined helper returned a parameter it was given) does nothing."""
+    changed = False
+
+    def visit(block):
+        nonlocal changed
+        for st in block:
+            if isinstance(st, (ast.FunctionDef, ast.ClassDef)):
+                continue
+            for b in _blocks_of(st):
+                visit(b)
+        keep = [st for st in block if not (isinstance(st, ast.Assign) and len(st.targets) == 1 and isinstance(st.targets[0], ast.Name)
+                                           and isinstance(st.value, ast.Name) and st.value.id == st.targets[0].id)]
+        if len(keep) != len(block) and keep:
+            block[:] = keep
+            changed = True
+    visit(fn.body)
+    if changed:
+        _invalidate()
+    return changed
+
+
 def _split_chained_assign(fn: ast.FunctionDef) -> bool:
     """`a = b = E` with E side-effect free and the targets plain names is `a = E; b = E`."""
     changed = False
@@ -2019,6 +2407,21 @@ def _split_chained_assign(fn: ast.FunctionDef) -> bool:
                 changed = True
                 k += len(st.targets)
                 continue
+            # `c[n] = c[n-1] = 1`: element stores of one literal / one name, left to right; no index reads a stored array
+            if isinstance(st, ast.Assign) and len(st.targets) > 1 \
+                    and all(isinstance(t, ast.Name) or (isinstance(t, ast.Subscript) and isinstance(t.value, ast.Name)
+                                                        and _is_pure_expr(t.slice)) for t in st.targets) \
+                    and (_is_num_literal(st.value) or isinstance(st.value, ast.Name)):
+                bases = {_base_name(t) for t in st.targets}
+                reads = set(_names_loaded(st.value))
+                for t in st.targets:
+                    if isinstance(t, ast.Subscript):
+                        reads |= _names_loaded(t.slice)
+                if not (bases & reads):
+                    block[k:k + 1] = [_fix(ast.Assign(targets=[t], value=copy.deepcopy(st.value)), st) for t in st.targets]
+                    changed = True
+                    k += len(st.targets)
+                    continue
             if not isinstance(st, (ast.FunctionDef, ast.ClassDef)):
                 for b in _blocks_of(st):
                     visit(b)
@@ -3640,12 +4043,17 @@ def normalize_function(fn: ast.FunctionDef, module_helpers: Dict[str, ast.Functi
             _SortMinMaxArgs().visit(st)
         _invalidate()
         _split_chained_assign(fn)
+        _drop_self_assign(fn)
+        _conditional_override_to_select(fn)
+        _enumerate_to_range(fn)
+        _duplicate_tail_into_arms(fn)
         _index_to_element_comprehensions(fn)
         _sink_update_into_defs(fn)
         _extend_to_augassign(fn)
         _fuse_ifs(fn.body)
         _order_block(fn.body)
         _invalidate()
+        _hoist_common_return(fn)
         fn.body = _branch_motion(fn.body)
         _invalidate()
         _while_to_for(fn)
@@ -3659,6 +4067,7 @@ def normalize_function(fn: ast.FunctionDef, module_helpers: Dict[str, ast.Functi
             while _coalesce_copies(fn) or _coalesce_generated(fn) or _coalesce_select(fn):
                 ch = True
             ch = _inline_temps(fn, True) or ch
+            ch = _forward_across_increments(fn) or ch
             while _coalesce_copies(fn) or _coalesce_generated(fn) or _coalesce_select(fn) or _coalesce_bound_copy(fn):
                 ch = True
             ch = _reuse_values(fn) or ch
@@ -3733,17 +4142,23 @@ def normalize_module(tree: ast.Module, imported_helpers: Optional[Dict[str, ast.
             counts[n.arg] = counts.get(n.arg, 0) + 2
         elif isinstance(n, ast.alias):
             counts[(n.asname or n.name).split('.')[0]] = counts.get((n.asname or n.name).split('.')[0], 0) + 2
-    module_consts: Dict[str, ast.Constant] = {}
+    module_consts: Dict[str, ast.expr] = {}
     for st in tree.body:
         if isinstance(st, ast.Assign) and len(st.targets) == 1 and isinstance(st.targets[0], ast.Name) \
-                and counts.get(st.targets[0].id) == 1 and isinstance(st.value, ast.Constant) \
-                and isinstance(st.value.value, (int, float)) and not isinstance(st.value.value, bool):
-            module_consts[st.targets[0].id] = st.value
+                and counts.get(st.targets[0].id) == 1:
+            v = st.value
+            if isinstance(v, ast.UnaryOp) and isinstance(v.op, ast.UAdd):
+                v = v.operand                                   # `+1` is 1
+            if isinstance(v, ast.Constant) and isinstance(v.value, (int, float)) and not isinstance(v.value, bool):
+                module_consts[st.targets[0].id] = v
+            elif isinstance(v, ast.UnaryOp) and isinstance(v.op, ast.USub) and isinstance(v.operand, ast.Constant) \
+                    and isinstance(v.operand.value, (int, float)) and not isinstance(v.operand.value, bool):
+                module_consts[st.targets[0].id] = v             # a negative literal stays `-c`, as it is written in place
     if module_consts:
         class _Consts(ast.NodeTransformer):
             def visit_Name(self, node):
                 if isinstance(node.ctx, ast.Load) and node.id in module_consts:
-                    return ast.copy_location(ast.Constant(value=module_consts[node.id].value), node)
+                    return ast.copy_location(copy.deepcopy(module_consts[node.id]), node)
                 return node
         for st in tree.body:
             if isinstance(st, (ast.FunctionDef, ast.ClassDef)):
